@@ -70,6 +70,15 @@ type FnCtx struct {
 	axiomsDone map[*AxiomDef]bool
 	trustedCalls map[string]int
 	pendingAxioms []*PredDef
+	guards    []guardSpec
+	guardObls map[string][]Term
+}
+
+// guardSpec: every access to a field of object Obj (other than the mutex itself) must happen
+// while Mu is held.
+type guardSpec struct {
+	Obj, Mu Term
+	Exempt  map[string]bool
 }
 
 type Frame struct {
@@ -653,6 +662,26 @@ func (c *FnCtx) cellLoad(fr *Frame, st *State, k cellKey) SV {
 	return v
 }
 
+func (c *FnCtx) guardCheck(st *State, l *Loc) {
+	if len(c.guards) == 0 || l == nil || c.inSpec > 0 {
+		return
+	}
+	for _, g := range c.guards {
+		if l.Idx.S != g.Obj.S || l.Idx2 != nil {
+			continue
+		}
+		field := l.Prefix[strings.LastIndex(l.Prefix, ".")+1:]
+		if g.Exempt[field] {
+			continue
+		}
+		h := c.heapGet(st, "held$", SArr(SInt, SBool))
+		if c.guardObls == nil {
+			c.guardObls = map[string][]Term{}
+		}
+		c.guardObls[field] = append(c.guardObls[field], Implies(st.pc, Select(h, g.Mu, SBool)))
+	}
+}
+
 // addrOf interprets a pointer-typed SSA value as something loadable/storable.
 func (c *FnCtx) loadPtr(fr *Frame, st *State, p ssa.Value) SV {
 	et := p.Type().Underlying().(*types.Pointer).Elem()
@@ -663,6 +692,7 @@ func (c *FnCtx) loadPtr(fr *Frame, st *State, p ssa.Value) SV {
 			return c.cellLoad(fr, st, *x.Cell)
 		}
 		c.derefCheck(st, x.Loc)
+		c.guardCheck(st, x.Loc)
 		return c.loadLoc(st, x.Loc)
 	case Sc:
 		if structOf(et) != nil {
@@ -698,6 +728,7 @@ func (c *FnCtx) storePtr(fr *Frame, st *State, p ssa.Value, v SV) {
 			return
 		}
 		c.derefCheck(st, x.Loc)
+		c.guardCheck(st, x.Loc)
 		c.storeLoc(st, x.Loc, v)
 		return
 	case Sc:
